@@ -28,6 +28,7 @@ def obsStr : Obs → String
   | .mdnsShutdown => "mshut"
   | .visible n => s!"visible:{n}"
   | .detail st e => s!"detail:{st}{if e then "e" else ""}"
+  | .service k t => s!"service:{hx k}:{b01 t}"
 
 def isPairing : Obs → Bool | .pairing _ _ _ => true | _ => false
 
@@ -54,6 +55,7 @@ def parseEv (toks : List String) : Option Ev :=
   | ["cancel", s] => some (.cancel (uh s))
   | ["disconnect", s] => some (.disconnect (uh s))
   | ["pairingdetail", s] => some (.pairingDetail (uh s))
+  | ["lookup", s] => some (.lookup (uh s))
   | ["setauto", b] => some (.setAuto (b == "1"))
   | ["shutdown"] => some .shutdown
   | ["report", ks] => some (.report (if ks == "-" then [] else (ks.splitOn ",").map uh))
